@@ -1017,8 +1017,11 @@ def qwf_signature(shape, prs, failure):
             tg = oracle_targets(shape, prs[pr_id - 1])
             newest = [i for i, d in enumerate(prs, 1)
                       if v in oracle_targets(shape, d)][-1]
-            sig += '|pr_targets=%d|%s' % (
-                len(tg), 'newest_in_version' if newest == pr_id
+            pos = ('only' if len(tg) == 1 else
+                   'lowest' if v == tg[0] else
+                   'highest' if v == tg[-1] else 'middle')
+            sig += '|version_is_%s_target_of_pr|%s' % (
+                pos, 'newest_in_version' if newest == pr_id
                 else 'not_newest_in_version')
             sig += '|hotfix' if v.count('.') == 3 else ''
         else:
@@ -1052,7 +1055,7 @@ def enumerate_tasks(tier, seed):
                 'q/w commits (2^m per tuple)')
         return tasks, desc, True
     rng = random.Random(seed)
-    budget = 36000            # status patterns of 4-PR tuples per shape
+    budget = 24000            # status patterns of 4-PR tuples per shape
     n4 = 0
     for sh in shapes:
         dests = destinations(sh)
@@ -1100,7 +1103,9 @@ def _worker(args):
             for f in r['failures']:
                 sig = qwf_signature(shape, list(prs), f)
                 out['qwf_sigs'][sig] = out['qwf_sigs'].get(sig, 0) + 1
-                out['qwf_examples'].setdefault(sig, (len(prs), f))
+                out['qwf_examples'].setdefault(
+                    sig, ((len(prs), len(shape['devs']) + len(shape['stabs'])
+                           + int(shape['hotfix'])), f))
     except Exception as err:                       # harness bug, not a verdict
         import traceback
         out['crash'] = {'shape': shape, 'prs': list(prs),
@@ -1119,9 +1124,11 @@ def _worker(args):
     return out
 
 
-def run(tier='quick', seed=0, jobs=16):
+def run(tier='quick', seed=0, jobs=16, deadline_s=None):
     """Bounded check of C05 (+ QWF) - see module docstring / 'rule'."""
     t0 = time.time()
+    if deadline_s is None:
+        deadline_s = 80 if tier == 'quick' else 24 * 60
     tasks, scope_desc, full = enumerate_tasks(tier, seed)
     # heaviest first, for load balancing
     order = sorted(range(len(tasks)),
@@ -1141,8 +1148,12 @@ def run(tier='quick', seed=0, jobs=16):
     else:
         pool = None
         results = map(_worker, args)
+    timed_out = False
     for out in results:
         n_tuples += 1
+        if time.time() - t0 > deadline_s:
+            timed_out = True
+            break
         for k in tot:
             if k in out:
                 tot[k] += out[k]
@@ -1169,8 +1180,14 @@ def run(tier='quick', seed=0, jobs=16):
         if 'crash' in out:
             crashes.append(out['crash'])
     if pool:
-        pool.close()
+        if timed_out:
+            pool.terminate()
+        else:
+            pool.close()
         pool.join()
+    unfinished = len(args) - n_tuples + (1 if timed_out else 0)
+    if timed_out:
+        n_tuples -= 1           # the result in hand when time ran out
     # failures: smallest examples first, round-robin over the signatures
     ranked = sorted(examples.items(), key=lambda kv: kv[1][0][0])
     failures = []
@@ -1235,7 +1252,9 @@ def run(tier='quick', seed=0, jobs=16):
         'failures': failures,
         'failure_signatures': dict(sorted(sigs.items())),
         'samples': good,
-        'exhaustive': bool(full and not crashes),
+        'exhaustive': bool(full and not crashes and not timed_out),
+        'timed_out': timed_out,
+        'unfinished_tuples': unfinished,
         'wall_s': 0.0,
         'tuples': n_tuples,
         'real_process_runs': tot['evals'],
